@@ -73,8 +73,15 @@ impl Engine {
 
 // ------------------------------------------------------------ minimiser
 
+/// cause keys are compared modulo the `varies=` facet (C20): it describes the *scenario*
+/// (which nondeterminism source is still present), and shrinking is meant to change it
+fn norm_key(k: &str) -> String {
+    k.split('|').filter(|p| !p.starts_with("varies=")).collect::<Vec<_>>().join("|")
+}
+
 fn has_key(ctx: &Ctx, sc: &Scenario, key: &str) -> Option<Violation> {
-    run_scenario(ctx, sc).violations.into_iter().find(|v| v.key == key)
+    let want = norm_key(key);
+    run_scenario(ctx, sc).violations.into_iter().find(|v| norm_key(&v.key) == want)
 }
 
 const TINY: &str = "grammar;\npub T: () = \"a\" \"b\" => ();\n";
@@ -267,7 +274,10 @@ impl Reporter {
             if !reproduced {
                 simcore::harness_error(&format!("violation `{key}` did not reproduce on re-execution (nondeterminism in the harness?)\n  detail: {}", v.detail));
             }
-            let detail = engine.with_ctx("min", |ctx| has_key(ctx, &min, key).map(|v| v.detail).unwrap_or_default());
+            let final_v = engine.with_ctx("min", |ctx| has_key(ctx, &min, key));
+            let detail = final_v.as_ref().map(|v| v.detail.clone()).unwrap_or_default();
+            // the minimised scenario may have lost a nondeterminism source: report its own key
+            let key = &final_v.as_ref().map(|v| v.key.clone()).unwrap_or_else(|| key.clone());
             let dig = simcore::digest(serde_json::to_string(&min).unwrap().as_bytes());
             let path = simcore::replay_dir().join(format!("{}-{}-{:08x}.json", self.property, sc.seed, dig as u32));
             let doc = json!({
@@ -300,7 +310,7 @@ pub fn replay_file(engine: &Engine, path: &str) -> i32 {
     let bytes = std::fs::read(path).unwrap_or_else(|e| simcore::harness_error(&format!("cannot read {path}: {e}")));
     let doc: serde_json::Value = serde_json::from_slice(&bytes).unwrap_or_else(|e| simcore::harness_error(&format!("bad replay file: {e}")));
     let sc: Scenario = serde_json::from_value(doc["scenario"].clone()).unwrap_or_else(|e| simcore::harness_error(&format!("bad scenario: {e}")));
-    let key = doc["key"].as_str().unwrap_or("").to_string();
+    let key = norm_key(doc["key"].as_str().unwrap_or(""));
     let out = engine.with_ctx("replay", |ctx| run_scenario(ctx, &sc));
     for l in &out.log {
         if std::env::var("VERIF_VERBOSE").is_ok() {
@@ -311,7 +321,7 @@ pub fn replay_file(engine: &Engine, path: &str) -> i32 {
     let mut hit = false;
     for v in &out.violations {
         println!("  violation invariant={} key={}\n    {}", v.invariant, v.key, v.detail);
-        if v.key == key {
+        if norm_key(&v.key) == key {
             hit = true;
         }
     }
